@@ -406,6 +406,7 @@ func auditExtras(c *Ctx, rep *Report) {
 	ignoredGuardResults(c, ru, rep.Prop)
 	errorDiscipline(c, rep)
 	lockBalance(c, rep)
+	optionWiring(c, rep)
 	if rep.Prop != "C15" { // (C15-R6 runs it with its strict map)
 		ru := rep.Rule(rep.Prop+"-A4", "E1", 0, "audit: in the files the property is anchored in, where a function tests the ok of a comma-ok lookup or type assertion, every dereference of the pointer it yielded lies behind the ok edge or a nil test")
 		commaOkDiscipline(c, ru, anchoredFns(c, rep.Prop))
@@ -494,7 +495,22 @@ func lockBalance(c *Ctx, rep *Report) {
 				acquired[k] = true
 			}
 		}
-		if len(acquired) == 0 {
+		releases := false
+		for _, b := range f.Blocks {
+			for _, in := range b.Instrs {
+				if call, ok := in.(*ssa.Call); ok {
+					if op, isM := mutexOps[calleeKey(call)]; isM && !op.acquire {
+						releases = true
+					}
+				}
+				if d, ok := in.(*ssa.Defer); ok {
+					if op, isM := mutexOps[calleeKey(d)]; isM && !op.acquire {
+						releases = true
+					}
+				}
+			}
+		}
+		if len(acquired) == 0 && !releases {
 			continue
 		}
 		n++
@@ -514,7 +530,7 @@ func lockBalance(c *Ctx, rep *Report) {
 			}
 			sort.Strings(ks)
 			if len(ks) > 0 && bad == "" {
-				bad = strings.Join(ks, ", ")
+				bad = "a path returns with " + strings.Join(ks, ", ") + " still held and no deferred unlock: the next acquirer blocks forever"
 				badPos = ret.Pos()
 			}
 		}
@@ -531,7 +547,41 @@ func lockBalance(c *Ctx, rep *Report) {
 				}
 				k := pathOf(call.Call.Args[0])
 				if hl, held := lf.must[in][k]; held && (hl.mode == modeW || op.mode == modeW) && bad == "" {
-					bad = k + " (acquired again while held)"
+					bad = k + " is acquired again while it is certainly still held: the goroutine blocks on itself"
+					badPos = in.Pos()
+				}
+			}
+		}
+		// ... a deferred unlock belongs to a lock this function takes
+		for _, b := range f.Blocks {
+			for _, in := range b.Instrs {
+				d, ok := in.(*ssa.Defer)
+				if !ok {
+					continue
+				}
+				if op, isM := mutexOps[calleeKey(d)]; isM && !op.acquire && len(d.Call.Args) > 0 && f.Parent() == nil {
+					if k := pathOf(d.Call.Args[0]); !acquired[k] && bad == "" {
+						bad = k + " is released by a deferred call although this function never acquires it: the runtime panics (or another holder's critical section is opened)"
+						badPos = in.Pos()
+					}
+				}
+			}
+		}
+		// ... and none it acquires somewhere is released at a point where it cannot be held (the runtime panics)
+		for _, b := range f.Blocks {
+			for _, in := range b.Instrs {
+				call, ok := in.(*ssa.Call)
+				if !ok {
+					continue
+				}
+				op, isM := mutexOps[calleeKey(call)]
+				if !isM || op.acquire || len(call.Call.Args) == 0 {
+					continue
+				}
+				k := pathOf(call.Call.Args[0])
+				// (a function literal runs in the lock context of the function around it: not judged here)
+				if _, held := lf.may[in][k]; !held && f.Parent() == nil && bad == "" {
+					bad = k + " is released at a point where it cannot be held: the runtime panics (or another holder's critical section is opened)"
 					badPos = in.Pos()
 				}
 			}
@@ -542,7 +592,7 @@ func lockBalance(c *Ctx, rep *Report) {
 			if badPos == token.NoPos {
 				badPos = f.Pos()
 			}
-			ru.Fail(fnKey(f)+": every acquired mutex is released on every path to a return", badPos, "a path returns with "+bad+" still held and no deferred unlock: the next acquirer blocks forever", "")
+			ru.Fail(fnKey(f)+": every acquired mutex is released on every path to a return", badPos, bad, "")
 		}
 	}
 	ru.OK("functions that acquire a mutex", token.NoPos, n, "")
@@ -551,4 +601,93 @@ func lockBalance(c *Ctx, rep *Report) {
 // lockHandOver: functions that return with a lock held on purpose.
 var lockHandOver = map[string]string{
 	"(*p2p/host/eventbus.basicBus).withNode": "hands the node lock to the goroutine that runs the second callback, which releases it (C15-R2 checks the contract)",
+}
+
+// optionWiring (A5): an option constructor (With..., or anything that returns an option function) does something
+// with every argument it is given: the value reaches a store, a call or a result, in the constructor or in the
+// function it returns. An option that drops its argument silently leaves the default in place.
+func optionWiring(c *Ctx, rep *Report) {
+	ru := rep.Rule(rep.Prop+"-A5", "E6", 0, "audit: in the files the property is anchored in, every option constructor (With...) uses each argument it is given (the value reaches a store, a call or a result in the constructor or in the option function it returns)")
+	n := 0
+	for _, f := range anchoredFns(c, rep.Prop) {
+		if f.Parent() != nil || !strings.HasPrefix(f.Name(), "With") || f.Signature.Recv() != nil {
+			continue
+		}
+		for _, p := range f.Params {
+			if p.Name() == "_" || p.Name() == "" {
+				continue
+			}
+			n++
+			ru.Check(valueIsUsed(p, 0), fnKey(f)+": uses its argument "+fmt.Sprint(len(f.Params))+"/"+p.Name(), p.Pos(), 1, "", "the option ignores what it was given: the default stays in force", "")
+		}
+	}
+	ru.OK("option arguments examined", token.NoPos, n, "")
+}
+
+// valueIsUsed: v has a consumer other than debug info and the plumbing of captures (a cell that only closures read
+// whose reads go nowhere).
+func valueIsUsed(v ssa.Value, depth int) bool {
+	refs := v.Referrers()
+	if refs == nil || depth > 4 {
+		return true
+	}
+	for _, r := range *refs {
+		switch x := r.(type) {
+		case *ssa.DebugRef:
+			continue
+		case *ssa.Store:
+			if x.Val == v {
+				if al, ok := x.Addr.(*ssa.Alloc); ok {
+					// a local cell: used iff something reads it and uses what it read
+					if cellIsRead(al, depth) {
+						return true
+					}
+					continue
+				}
+			}
+			return true
+		case *ssa.MakeClosure:
+			fn := x.Fn.(*ssa.Function)
+			for i, b := range x.Bindings {
+				if b == v && i < len(fn.FreeVars) && valueIsUsed(fn.FreeVars[i], depth+1) {
+					return true
+				}
+			}
+			continue
+		case *ssa.UnOp:
+			if x.Op == token.MUL {
+				if valueIsUsed(x, depth+1) {
+					return true
+				}
+				continue
+			}
+			return true
+		default:
+			return true
+		}
+	}
+	return false
+}
+
+func cellIsRead(al *ssa.Alloc, depth int) bool {
+	for _, r := range *al.Referrers() {
+		switch x := r.(type) {
+		case *ssa.DebugRef, *ssa.Store:
+			continue
+		case *ssa.UnOp:
+			if valueIsUsed(x, depth+1) {
+				return true
+			}
+		case *ssa.MakeClosure:
+			fn := x.Fn.(*ssa.Function)
+			for i, b := range x.Bindings {
+				if b == ssa.Value(al) && i < len(fn.FreeVars) && valueIsUsed(fn.FreeVars[i], depth+1) {
+					return true
+				}
+			}
+		default:
+			return true
+		}
+	}
+	return false
 }
